@@ -109,3 +109,19 @@ Theorem C03_map_order_refuted_witness :
                  ∧ read_mv y 0 = Some [5] ∧ read_mv z 0 = Some [5] ∧ x ≠ y ∧ x ≠ z.
 Proof. exact map_T1_order_refuted. Qed.
 Print Assumptions C03_map_order_refuted_witness.
+
+From Crdt Require Import model.Map spec.System spec.OrswotSpec spec.OrswotSystem spec.MapSpec spec.MapSystem proofs.OrswotSystem proofs.MapKeys.
+
+(** Map, key level (any nested value type): merge is commutative, associative, idempotent,
+    equals learning the union of the two knowledge sets, and is the Orswot merge of the key layers *)
+Theorem C03_map_keys_merge_laws {V O E} (vo : valops V O E) (H : list (oprec (mop O))) :
+  owfH (habs H) ->
+  forall (s1 : cmap V) (K1 : gset nat) (s2 : cmap V) (K2 : gset nat) (s3 : cmap V) (K3 : gset nat),
+    mapreach vo H s1 K1 -> mapreach vo H s2 K2 -> mapreach vo H s3 K3 ->
+    kabs (mmerge vo s1 s2) = kabs (mmerge vo s2 s1)
+    /\ kabs (mmerge vo (mmerge vo s1 s2) s3) = kabs (mmerge vo s1 (mmerge vo s2 s3))
+    /\ kabs (mmerge vo s1 s1) = kabs s1
+    /\ kabs (mmerge vo s1 s2) = ospec (habs H) (K1 ∪ K2)
+    /\ kabs (mmerge vo s1 s2) = omerge (kabs s1) (kabs s2).
+Proof. exact (map_keys_merge_laws vo H). Qed.
+Print Assumptions C03_map_keys_merge_laws.
